@@ -93,7 +93,8 @@ where
             if self.chunk_buf.len() >= next.size {
                 self.chunk_index += 1;
                 let chunk = self.chunk_buf.split_to(next.size).freeze();
-                self.num_adjacent_reads -= 1;
+                // A zero sized chunk is complete before any request has been made.
+                self.num_adjacent_reads = self.num_adjacent_reads.saturating_sub(1);
                 if self.num_adjacent_reads == 0 {
                     // Time to make another request.
                     self.request = None;
